@@ -777,7 +777,8 @@ class AbstractFeatureInterval(AbstractInterval, ABC):
         self, other_qualifiers: Optional[Dict[Hashable, Set[str]]] = None
     ) -> Dict[Hashable, Set[str]]:
         """Merges this Interval's qualifiers dictionary with a new one, removing redundancy."""
-        merged = self.qualifiers.copy()
+        # copy the value sets as well: the caller's additions must not leak into this Interval's own qualifiers
+        merged = {key: set(vals) for key, vals in self.qualifiers.items()}
         if other_qualifiers:
             for key, vals in other_qualifiers.items():
                 if key not in merged:
